@@ -19,8 +19,8 @@ TRUSTED = [
     "bytearray.split/join, bytearray item assignment raising IndexError/ValueError",
     "non-termination is modelled as EOutOfFuel; the theorems exclude it for every input they cover",
     "tag level: Model.C14_Layers is a hand transcription of the flag handling of Frame._fromData (v2.3 and v2.4 branches) and of the "
-    "whole-tag destuffing at the head of read_frames, with zlib.decompress an arbitrary function (Section variable); it is tied to /repo "
-    "by a per-run vm_compute correspondence against Frame._fromData (a few dozen flag/data combinations, zlib replaced by a one-entry "
+    "whole-tag destuffing at the head of read_frames (v2.2 / v2.3; v2.2 frames carry no flags), with zlib.decompress an arbitrary function (Section variable); it is tied to /repo "
+    "by a per-run vm_compute correspondence against Frame._fromData and read_frames (a few dozen flag/data combinations, zlib replaced by a one-entry "
     "table in the model) and by the tag-level oracle; header parsing, frame cutting (read_frames loop, determine_bpi) and the frame "
     "specs are tested by the oracle, not proved",
     "Python's zlib module is the reference deflate/inflate of the hand-built tags (plus a hand-made stored-block deflate writer checked against it)",
@@ -49,7 +49,7 @@ RULE = ("correspondence: every (value, bits 1..8, byte order, (width,minwidth) i
         "BitPaddedInt(bytes), has_valid_padding(int|bytes); every byte string over {00,01,7F,80,DF,E0,FE,FF} up to length 5 (quick) / 7 "
         "(thorough) plus random long strings for unsynch.encode/decode; value or bytes and exception class compared with the extracted model. "
         "direct oracle: the same inputs against the property statement with independent reference codecs; negative values in a watchdog "
-        "subprocess; hand-built tags: v2.3 {whole-tag unsynchronisation} x {plain, compressed frames (4-byte size + zlib)} and v2.4 {tag-level flag} x "
+        "subprocess; hand-built tags: v2.2 {whole-tag unsynchronisation} (6-byte frame headers: MCI = the payload itself, UFI, TT2, TP1, PIC), v2.3 {whole-tag unsynchronisation} x {plain, compressed frames (4-byte size + zlib)} and v2.4 {tag-level flag} x "
         "{frame flag} x {plain, data length indicator, zlib + data length indicator, zlib without the indicator flag}, zlib streams from "
         "Python's zlib at levels 0/6/9, with a sync flush (00 00 FF FF inside) and from a hand-made stored-block writer (NLEN = FF..), "
         "padded and unpadded, plus random per-frame mixtures; payloads = every alphabet string to length 3 (quick) / 4, long FF runs, "
@@ -659,9 +659,24 @@ TITLE = "ÿþtitleÿ"
 ARTIST = "ÿ artist é ÿþ"
 
 
-def frame_bodies(payload):
+PICHEAD = b"\x89"     # first byte of the picture data: keeps it from being all zero (an all-zero rest after an encoded text
+                      # is read as padding below v2.4 -- a quirk of EncodedTextSpec unrelated to this property)
+
+
+def frame_bodies(payload, ver=4):
     """(frame id, frame body) of the frames carrying `payload` and FF-rich text.  MCDI is a plain binary frame:
-    its body IS the payload, so the byte after a stored-block header is under the payload's control."""
+    its body IS the payload, so the byte after a stored-block header is under the payload's control.
+    ver 2: the ID3v2.2 frames (3-character ids): MCI = the payload itself, UFI, TT2 UTF-16, TP1 latin-1, PIC."""
+    if ver == 2:
+        fr = [
+            (b"UFI", b"http://x\x00" + payload),
+            (b"TT2", b"\x01\xff\xfe" + TITLE.encode("utf-16-le")),
+            (b"TP1", b"\x00" + ARTIST.encode("latin-1")),
+            (b"PIC", b"\x00PNG\x03d\x00" + PICHEAD + payload),
+        ]
+        if payload:
+            fr.insert(0, (b"MCI", payload))
+        return fr
     fr = [
         (b"PRIV", b"own\x00" + payload),
         (b"TIT2", b"\x01\xff\xfe" + TITLE.encode("utf-16-le")),
@@ -702,10 +717,13 @@ def build_layout(layout, payload, zcache=None):
 
     B = Built()
     out = b""
-    for i, (fid, body) in enumerate(frame_bodies(payload)):
+    for i, (fid, body) in enumerate(frame_bodies(payload, ver)):
         fu, zm, dl = frame_spec(layout, i)
         flags, data = 0, body
-        if ver == 4:
+        if ver == 2:      # 6-byte header: id, 3-byte plain size of the (decoded) body; no flags
+            assert len(body) < (1 << 24)
+            out += fid + struct.pack(">L", len(body))[1:] + body
+        elif ver == 4:
             if zm:
                 data = z(body, zm)
                 flags |= 0x0008
@@ -736,7 +754,7 @@ def build_layout(layout, payload, zcache=None):
                         B.ff00_plain += 1
             out += fid + struct.pack(">IH", len(data), flags) + data
     out += b"\x00" * pad
-    if ver == 3 and tu:
+    if ver in (2, 3) and tu:
         e = ref_unsynch_encode(out)
         B.stuffed += e != out
         out = e
@@ -752,7 +770,7 @@ def layout_name(l):
     fs = l["frames"]
     if len(fs) == 1:
         fu, zm, dl = fs[0]
-        f = ("frame-unsynch=%d " % fu if l["version"] == 4 else "") + "z=%s" % (zm or "-") + (" datalen=%d" % dl if l["version"] == 4 else "")
+        f = ("frame-unsynch=%d " % fu if l["version"] == 4 else "") + ("z=%s" % (zm or "-") if l["version"] > 2 else "") + (" datalen=%d" % dl if l["version"] == 4 else "")
     else:
         f = "mixed per-frame flags"
     return "v2.%d tag-unsynch=%d %s%s" % (l["version"], l["tag_unsynch"], f, " padded" if l.get("padding") else "")
@@ -760,6 +778,10 @@ def layout_name(l):
 
 def uniform_layouts():
     out = []
+    for tu in (0, 1):
+        out.append(L(2, tu, 0, None, 0))
+        out.append(L(2, tu, 0, None, 0, 7))
+        out.append(L(2, tu, 0, None, 0, 1))
     for tu in (0, 1):
         for zm in (None,) + ZMODES:
             out.append(L(3, tu, 0, zm, 0))
@@ -784,6 +806,8 @@ OLD_VARIANTS = [L(3, 1, 0, None, 0), L(3, 1, 0, None, 0, 7), L(4, 0, 1, None, 0)
 
 
 def mixed_layout(rng, ver):
+    if ver == 2:
+        return L(2, rng.randrange(2), 0, None, 0, rng.choice((0, 2, 5, 6, 10, 11)))
     fs = []
     for _ in range(6):
         zm = rng.choice((None, None) + ZMODES)
@@ -833,18 +857,25 @@ def oracle_layout(V, payload, layout, zcache=None, plain_views=None, stats=None)
         if len(mcdi) != 1 or mcdi[0].data != payload:
             V(bin_msg, dict(d, frame="MCDI", observed=hexs(mcdi))); ok = False
     ufid, tit2, tpe1 = t.getall("UFID"), t.getall("TIT2"), t.getall("TPE1")
-    for owner in ("own", ""):
-        priv = [f for f in t.getall("PRIV") if f.owner == owner]
-        if len(priv) != 1 or priv[0].data != payload:
-            V(bin_msg, dict(d, frame="PRIV:" + owner, observed=hexs(priv))); ok = False
-    if len(t.getall("PRIV")) != 2:
-        V(bin_msg, dict(d, frame="PRIV", observed=hexs(t.getall("PRIV")))); ok = False
+    if layout["version"] == 2:     # (the v2.2 frames are presented under their v2.4 names: PIC -> APIC ...)
+        apic = t.getall("APIC")
+        if len(apic) != 1 or apic[0].data != PICHEAD + payload or apic[0].desc != "d" or int(apic[0].type) != 3:
+            V(bin_msg, dict(d, frame="PIC", observed=hexs(apic))); ok = False
+    else:
+        for owner in ("own", ""):
+            priv = [f for f in t.getall("PRIV") if f.owner == owner]
+            if len(priv) != 1 or priv[0].data != payload:
+                V(bin_msg, dict(d, frame="PRIV:" + owner, observed=hexs(priv))); ok = False
+        if len(t.getall("PRIV")) != 2:
+            V(bin_msg, dict(d, frame="PRIV", observed=hexs(t.getall("PRIV")))); ok = False
     if len(ufid) != 1 or ufid[0].data != payload or ufid[0].owner != "http://x":
         V(bin_msg, dict(d, frame="UFID", observed=hexs(ufid))); ok = False
     for name, fr, want in (("TIT2", tit2, TITLE), ("TPE1", tpe1, ARTIST)):
         if len(fr) != 1 or list(fr[0].text) != [want]:
             V("tag: text frame read from the tag differs from the original",
               dict(d, frame=name, observed=repr(fr[0].text) if fr else None)); ok = False
+    if tuple(t.version) != (2, layout["version"], 0):
+        V("tag: version of the loaded tag differs from the header", dict(d, observed=list(t.version))); ok = False
     if t.size != len(B.raw):
         V("tag: header size (BitPaddedInt) differs from the tag length", dict(d, observed=t.size)); ok = False
     if t.unknown_frames:
@@ -860,7 +891,7 @@ def oracle_layout(V, payload, layout, zcache=None, plain_views=None, stats=None)
     return ok
 
 
-def run_tags(ctx, payloads, nmixed=2):
+def run_tags(ctx, payloads, nmixed=3):
     V = _viol(ctx)
     rng = ctx.rng
 
@@ -876,7 +907,7 @@ def run_tags(ctx, payloads, nmixed=2):
         zcache, plain = {}, {}
         layouts = [(i, l) for i, l in enumerate(UNIFORM)]
         for k in range(nmixed):
-            layouts.append((len(UNIFORM) + k, mixed_layout(rng, 3 + (k + len(p)) % 2)))
+            layouts.append((len(UNIFORM) + k, mixed_layout(rng, 2 + (k + len(p)) % 3)))
         for i, l in layouts:
             oracle_layout(V, p, l, zcache, plain, stats)
             ctx.oracle_cases += 1
@@ -937,6 +968,22 @@ def impl_from_data(ver, tu, flags, data):
         return (2, [])
 
 
+def impl_read_frames(ver, tu, data):
+    """read_frames on a tag body holding one plain binary frame (correspondence only: private API)"""
+    from mutagen.id3._tags import ID3Header, read_frames
+    from mutagen.id3._frames import Frames, Frames_2_2
+    h = ID3Header()
+    h.version = (2, ver, 0)
+    h._flags = 0x80 if tu else 0
+    try:
+        frames, unknown, rest = read_frames(h, data, Frames_2_2 if ver == 2 else Frames)
+    except Exception:
+        return (2, [])
+    if len(frames) != 1 or unknown:
+        return (5, [])
+    return (0, list(frames[0].data))
+
+
 def layer_cases(ctx, cases, expect):
     """Model.C14_Layers (Frame._fromData's flag handling, zlib abstract) against the implementation: the model's
     `inflate` is the one-entry table {deflate stream -> body} of the case (everything else is a zlib.error), the
@@ -992,6 +1039,29 @@ def layer_cases(ctx, cases, expect):
     add(3, 0, 0x0080, b"\x00\x01", b"\x01", b)
     add(3, 0, 0x0080, struct.pack(">L", 3) + b"\x78\x01junk", b"\x01", b)
     add(3, 1, 0x0000, b"\xff\x00\xff\x00", b"\x01", b)    # the frame level of v2.3 never destuffs
+    # the head of read_frames: whole-tag destuffing for v2.2 / v2.3, none for v2.4; one plain binary frame per tag body
+    notable = "(fun l => Raise EValue)"
+    for ver in (2, 3, 4):
+        for tu in (0, 1):
+            for b in (body(), body() + b"\xff", b"\xff\x00" + body(), b"\x01\xff\xe0"):
+                unsafe = b == b"\x01\xff\xe0"     # stored as it is under the flag: tolerated, read unchanged
+                tb = "true" if tu else "false"
+                if ver == 2:
+                    data = b"MCI" + struct.pack(">L", len(b))[1:] + b
+                    term = "rbind (read_frames_head 2 " + tb + " DATA) (fun d => from_data_v22 (zdrop 6 d))"
+                elif ver == 3:
+                    data = b"MCDI" + struct.pack(">LH", len(b), 0) + b
+                    term = "rbind (read_frames_head 3 " + tb + " DATA) (fun d => from_data_v23 " + notable + " 0 (zdrop 10 d))"
+                else:
+                    fb = ref_unsynch_encode(b) if tu and not unsafe else b
+                    data = b"MCDI" + syncsafe4(len(fb)) + b"\x00\x00" + fb
+                    term = "rbind (read_frames_head 4 " + tb + " DATA) (fun d => from_data_v24 " + notable + " " + tb + " 0 (zdrop 10 d))"
+                if ver < 4 and tu and not unsafe:
+                    data = ref_unsynch_encode(data)
+                cases.append(res % term.replace("DATA", coq_bytes(data)))
+                expect.append(impl_read_frames(ver, tu, data))
+                ctx.corr_cases += 1
+                ctx.count("layers-correspondence:read_frames v2.%d" % ver)
 
 
 def vm_crosscheck(ctx):
